@@ -22,7 +22,12 @@ Pipeline (spec/C05_Search.tla decides every verdict):
      graph A and then graph `then` over the same label set (spec action PlanNext: the second call
      must behave like a fresh search); (d) the "many revisions" family (30-40 states, 6 actions,
      costs 0..40, zero heuristic): too big for the machines, judged by the spec's clauses against
-     its relaxation oracle only;
+     its relaxation oracle only; (e) the same MDP object is planned on, gets another initial state
+     in place and is planned on again (judged as the problem with the new initial state); (f) the
+     policy of a returned result is read only after several later searches have run (a returned
+     result must stay valid).  Representations also include problems that keep their graph as
+     parallel lists and hand out the stored action list itself, and problems that define no actions /
+     transitions at absorbing states (actions(s) raises there);
   4. TLC, mode "judge": every distinct real outcome is one Return event; the clauses of the
      statement (Fails) are evaluated by the spec -> VIOLATION per failing clause;
   5. TLC, mode "trace": for a third (quick) / an eighth (thorough) of the runs the visit events
@@ -309,6 +314,13 @@ def build(g, rep, rng):
     sidx = {l: i for i, l in enumerate(sl)}
     aidx = {l: i for i, l in enumerate(al)}
     as_list = rep["actions_as"] == "list"
+    # "stored": the problem keeps its graph as parallel lists (action labels / successors / costs per state),
+    # actions(s) returns the stored list object itself and transitions are looked up by position in it
+    stored = rep["actions_as"] == "stored"
+    avail_idx = [[a for a in range(K) if g["avail"][s][a]] for s in range(N)]
+    stored_labels = [[al[a] for a in avail_idx[s]] for s in range(N)]
+    strict_goals = rep.get("goal_actions", "ghost") == "raise"   # no actions are defined at absorbing states
+    ctl = {}
     as_float = rep["reward_as"] == "float" and not g.get("cbase")       # huge costs are exact as integers only
     calls = [0]
     cap = 2000 * (N * K + 2)             # a terminating search needs at most N*K successor look-ups
@@ -321,23 +333,37 @@ def build(g, rep, rng):
 
     def actions(s):
         tick()
+        if strict_goals and g["goal"][sidx[s]]:
+            raise KeyError(f"no actions are defined at the absorbing state {s!r}")
         visits.append([sidx[s] + 1, []])
+        if stored:
+            return stored_labels[sidx[s]]
         acts = [al[a] for a in range(K) if g["avail"][sidx[s]][a]]
         return acts if as_list else tuple(acts)
 
-    def nxt(s, a):
-        tick()
-        i, j = sidx[s], aidx[a]
+    def edge(s, a):
+        """abstract (state, action) indices of the transition the problem takes for labels (s, a)"""
+        i = sidx[s]
+        if strict_goals and g["goal"][i]:
+            raise KeyError(f"no transitions are defined at the absorbing state {s!r}")
+        if stored:
+            return i, avail_idx[i][stored_labels[i].index(a)]
+        j = aidx[a]
         if not g["avail"][i][j]:
             raise KeyError(f"action {a!r} is not available in state {s!r}")
+        return i, j
+
+    def nxt(s, a):
+        tick()
+        i, j = edge(s, a)
         if visits and visits[-1][0] == i + 1:
-            visits[-1][1].append(j + 1)
+            visits[-1][1].append(aidx[a] + 1)
         else:
-            visits.append([0, [j + 1]])       # a successor asked for outside an expansion: explained by no action
+            visits.append([0, [aidx[a] + 1]])  # a successor asked for outside an expansion: explained by no action
         return sl[g["nxt"][i][j] - 1]
 
     def reward(s, a, ns):
-        i, j = sidx[s], aidx[a]
+        i, j = edge(s, a)
         if sl[g["nxt"][i][j] - 1] != ns:
             raise KeyError(f"reward asked for a transition that does not exist: {s!r} {a!r} {ns!r}")
         c = real_cost(g, g["cost"][i][j])
@@ -348,6 +374,7 @@ def build(g, rep, rng):
         return bool(g["goal"][sidx[s]])
 
     start = sl[g["start"] - 1]
+    ctl["start"] = start                 # the initial state can be changed in place (call histories)
     cont = rep["container"]
     if cont == "dsp":
         class _DSP(DeterministicShortestPathProblem):
@@ -355,7 +382,7 @@ def build(g, rep, rng):
                 return nxt(s, a)
 
             def initial_state(self):
-                return start
+                return ctl["start"]
 
             def actions(self, s):
                 return actions(s)
@@ -375,7 +402,7 @@ def build(g, rep, rng):
             mdp = QuickMDP(next_state=nxt, initial_state=start, reward=reward, actions=actions, is_absorbing=is_abs)
     elif cont == "quick":
         mdp = QuickMDP(next_state_dist=lambda s, a: one_point(rep["trans"], nxt(s, a)),
-                       initial_state_dist=lambda: one_point(rep["init"], start),
+                       initial_state_dist=lambda: one_point(rep["init"], ctl["start"]),
                        reward=reward, actions=actions, is_absorbing=is_abs)
     elif cont == "class":
         class _M(MarkovDecisionProcess):
@@ -383,7 +410,7 @@ def build(g, rep, rng):
                 return one_point(rep["trans"], nxt(s, a))
 
             def initial_state_dist(self):
-                return one_point(rep["init"], start)
+                return one_point(rep["init"], ctl["start"])
 
             def actions(self, s):
                 return actions(s)
@@ -396,7 +423,8 @@ def build(g, rep, rng):
         mdp = _M()
     else:
         raise ValueError(cont)
-    return mdp, sl, al, visits
+    ctl["visits"] = visits
+    return mdp, sl, al, visits, ctl
 
 
 def rand_rep(rng, plain=False):
@@ -411,7 +439,9 @@ def rand_rep(rng, plain=False):
     elif c == "quick_next_state":
         ik = tk = "det"
     return dict(container=c, init=ik, trans=tk, labels=rng.choice(LABEL_KINDS), alabels=rng.choice(LABEL_KINDS),
-                actions_as=rng.choice(["tuple", "list"]), reward_as=rng.choice(["int", "float"]))
+                actions_as=rng.choice(["tuple", "list"] if plain else ["tuple", "list", "stored", "stored"]),
+                reward_as=rng.choice(["int", "float"]),
+                goal_actions="ghost" if plain else rng.choice(["ghost", "ghost", "raise"]))
 
 
 # --------------------------------------------------------------------------------------------
@@ -475,9 +505,30 @@ def _guarded(fn, planner_name, out):
     return False, None
 
 
-def project(res, alg, sidx, aidx, out, g=None):
+def project_policy(res, aidx, out):
+    """The action the returned policy takes at every state of the returned path (abstract, 0 = none)."""
+    if res is None or out["kind"] != "path" or not out["path"]:
+        return out
+    acts = []
+    try:
+        for s in list(res.path)[:-1]:
+            try:
+                sup = list(res.policy.action_dist(s).support)
+                acts.append(aidx.get(sup[0], 0) if len(sup) == 1 and _hashable(sup[0]) else 0)
+            except Exception as e:                           # noqa: BLE001
+                acts.append(0)
+                out["note"] = f"policy at path state failed: {type(e).__name__}: {e}"[:200]
+    except Exception as e:                                   # noqa: BLE001
+        out["path"], acts = [], []
+        out["note"] = f"result could not be projected: {type(e).__name__}: {e}"[:200]
+    out["acts"] = acts
+    return out
+
+
+def project(res, alg, sidx, aidx, out, g=None, defer_policy=False):
     """Result of plan_on -> abstract (1-based) path, action of the returned policy at every path state,
-    path_value, visited."""
+    path_value, visited.  With defer_policy the policy is read later (project_policy), i.e. possibly
+    after other searches have run: a returned result must stay valid."""
     if res is None:
         out["kind"] = "none"
         return out
@@ -485,15 +536,7 @@ def project(res, alg, sidx, aidx, out, g=None):
     try:
         path = list(res.path)
         out["path"] = [sidx.get(s, 0) if _hashable(s) else 0 for s in path]
-        acts = []
-        for s in path[:-1]:
-            try:
-                sup = list(res.policy.action_dist(s).support)
-                acts.append(aidx.get(sup[0], 0) if len(sup) == 1 and _hashable(sup[0]) else 0)
-            except Exception as e:                           # noqa: BLE001
-                acts.append(0)
-                out["note"] = f"policy at path state failed: {type(e).__name__}: {e}"[:200]
-        out["acts"] = acts
+        out["acts"] = [0] * max(len(path) - 1, 0)
         if alg == "astar":
             v = res.path_value
             out["raw_value"] = repr(v)
@@ -513,6 +556,8 @@ def project(res, alg, sidx, aidx, out, g=None):
     except Exception as e:                                   # noqa: BLE001
         out["visited"] = [-1]
         out["note"] += f" visited not readable: {type(e).__name__}"
+    if not defer_policy:
+        project_policy(res, aidx, out)
     return out
 
 
@@ -541,7 +586,7 @@ def nested_heuristic(g, sl, build_seed, sink):
         rng = random.Random(build_seed * 31 + i)
         rp = dict(container=rng.choice(["class", "quick"]), init=rng.choice(DIST_KINDS), trans=rng.choice(DIST_KINDS),
                   labels=rng.choice(LABEL_KINDS), alabels=rng.choice(LABEL_KINDS), actions_as="tuple", reward_as="int")
-        mdp, sl2, al2, _ = build(gr, rp, rng)
+        mdp, sl2, al2, _, _ = build(gr, rp, rng)
         alg = "bfs" if use_bfs else "astar"
         out = {"kind": None, "path": [], "acts": [], "value": -1, "visited": [], "note": "nested search inside heuristic_value", "visits": []}
         planner = BreadthFirstSearch() if use_bfs else AStarSearch()
@@ -577,7 +622,8 @@ class Prepared:
         self.cfg = cfg
         self.g = g
         rng = random.Random(build_seed)
-        mdp, sl, al, visits = build(g, rep, rng)
+        mdp, sl, al, visits, ctl = build(g, rep, rng)
+        self.ctl, self.sl = ctl, sl
         self.sidx = {l: i + 1 for i, l in enumerate(sl)}
         self.aidx = {l: i + 1 for i, l in enumerate(al)}
         self.nested = []
@@ -619,15 +665,29 @@ class Prepared:
                 self.target = DeterministicShortestPathProblem.from_mdp(mdp)
         _guarded(make, self.name, self.out)
 
-    def execute(self):
+    def execute(self, defer_policy=False):
+        self.res = None
         if self.out["kind"] == "error":
             return self.out
         if self.shared is not None:
             self.shared["fn"] = self.hvfn
         ok, res = _guarded(lambda: self.planner.plan_on(self.target), self.name, self.out)
         if ok:
-            project(res, self.cfg["alg"], self.sidx, self.aidx, self.out, self.g)
+            self.res = res
+            project(res, self.cfg["alg"], self.sidx, self.aidx, self.out, self.g, defer_policy=defer_policy)
         return self.out
+
+    def complete(self, out=None):
+        """Reads the policy of a result whose projection was deferred."""
+        return project_policy(self.res, self.aidx, self.out)
+
+    def restart(self, new_start):
+        """The SAME MDP object, its initial state changed in place, is planned on again."""
+        self.ctl["start"] = self.sl[new_start - 1]
+        self.out["visits"] = [[v[0], list(v[1])] for v in self.out["visits"]]   # the log keeps growing: snapshot
+        self.out = {"kind": None, "path": [], "acts": [], "value": -1, "visited": [], "note": "", "visits": []}
+        self.g = dict(self.g, start=new_start)
+        return self.execute()
 
 
 def run_real(g, cfg, h2, rep, seed, build_seed, nested_sink=None):
@@ -811,6 +871,19 @@ def plan_runs(rng, graphs, tier):
                            legs[1][3], legs[1][4])
             for order in ("ab", "ba"):
                 plan.append(("pair", legs[0], legs[1], order))
+    # the same MDP object is planned on, gets another initial state in place, and is planned on again
+    for i, g in enumerate(graphs, start=1):
+        if g["N"] < 2:
+            continue
+        for _ in range(2):
+            c = rng.randrange(len(g["cfgs"])) + 1
+            cfg = g["cfgs"][c - 1]
+            randomized = cfg["rnd"] == 1 or (cfg["alg"] == "astar" and cfg["tie"] == "random")
+            rp = rand_rep(rng)
+            while rp["container"] == "quick_next_state":       # its initial state is fixed at construction
+                rp = rand_rep(rng)
+            ns = rng.choice([s for s in range(1, g["N"] + 1) if s != g["start"]])
+            plan.append(("restart", (i, c, rp, rng.randrange(2 ** 31) if randomized else None, rng.randrange(2 ** 30)), ns))
     # planner re-use: the same planner object plans graph A, then graph `then` over the same label set
     for i, g in enumerate(graphs, start=1):
         j = g.get("then", 0)
@@ -874,6 +947,9 @@ def judge_cases(ctx, graphs, plan, *, tamper=None, quiet_counts=False, trace_eve
     orc, outcomes = mc(ctx, graphs)
     runs = []
     nested = []          # nested searches run inside heuristic_value: judged like stand-alone runs
+    extra = []           # runs on problems that are judged by the spec's clauses only
+    pending = []         # results whose policy is read later, after other searches have run
+    reruns = []
     for job in plan:
         if NONTERM["n"] >= NONTERM_STOP:
             ctx.skip("not run: non-termination already reported %d times" % NONTERM_STOP)
@@ -882,12 +958,14 @@ def judge_cases(ctx, graphs, plan, *, tamper=None, quiet_counts=False, trace_eve
             _, la, lb = job
             shared = {}
             first = None
+            legs_done = []
             for pos, (i, c, rep, sd, bs) in enumerate((la, lb)):
                 g = graphs[i - 1]
                 cfg = g["cfgs"][c - 1]
                 h2 = list(orc[i]["hz"][cfg["hk"]])
                 p = Prepared(g, cfg, h2, rep, sd, bs, shared=shared)
-                real = p.execute()
+                real = p.execute(defer_policy=True)      # policies are read after both searches (below)
+                legs_done.append(p)
                 ctx.evaluations += 1
                 run = {"gid": i, "cid": c, "alg": cfg["alg"], "cfg": cfg, "rep": rep, "seed": sd, "build_seed": bs,
                        "h2": h2, "res": real}
@@ -900,6 +978,27 @@ def judge_cases(ctx, graphs, plan, *, tamper=None, quiet_counts=False, trace_eve
                 runs.append(run)
                 for nr in p.nested:
                     nested.append(dict(nr, outer=len(runs) - 1))
+            for p in legs_done:
+                p.complete()
+            continue
+        if job[0] == "restart":
+            _, (i, c, rep, sd, bs), new_start = job
+            g = graphs[i - 1]
+            cfg = g["cfgs"][c - 1]
+            h2 = list(orc[i]["hz"][cfg["hk"]])
+            p = Prepared(g, cfg, h2, rep, sd, bs)
+            real = p.execute()
+            ctx.evaluations += 1
+            runs.append({"gid": i, "cid": c, "alg": cfg["alg"], "cfg": cfg, "rep": rep, "seed": sd, "build_seed": bs,
+                         "h2": h2, "res": real})
+            for nr in p.nested:
+                nested.append(dict(nr, outer=len(runs) - 1))
+            # the same MDP object, initial state changed in place, planned on again: judged as the problem
+            # with the new initial state (spec clauses + oracle; not explored by the machines)
+            real2 = p.restart(new_start)
+            ctx.evaluations += 1
+            extra.append({"graph": dict(gcore(g), start=new_start, cfgs=[], then=0), "cfg": cfg, "rep": rep, "seed": sd,
+                          "build_seed": bs, "res": real2, "family": "restart", "orig_start": g["start"], "new_start": new_start})
             continue
         if job[0] == "pair":
             _, la, lb, order = job
@@ -911,7 +1010,7 @@ def judge_cases(ctx, graphs, plan, *, tamper=None, quiet_counts=False, trace_eve
                 preps.append((Prepared(g, cfg, h2, rep, sd, bs, preconvert=True), i, c, cfg, rep, sd, bs, h2))
             seq = preps if order == "ab" else preps[::-1]
             for pos, (p, i, c, cfg, rep, sd, bs, h2) in enumerate(seq):
-                real = p.execute()
+                real = p.execute(defer_policy=True)
                 ctx.evaluations += 1
                 ctx.count("runs_after_interleaved_conversions")
                 other = seq[1 - pos]
@@ -922,18 +1021,25 @@ def judge_cases(ctx, graphs, plan, *, tamper=None, quiet_counts=False, trace_eve
                              "h2": h2, "res": real, "scenario": scen})
                 for nr in p.nested:
                     nested.append(dict(nr, outer=len(runs) - 1))
+            for q in preps:
+                q[0].complete()
             continue
         (i, c, rep, sd, bs) = job
         g = graphs[i - 1]
         cfg = g["cfgs"][c - 1]
         h2 = list(orc[i]["hz"][cfg["hk"]])
-        sink = []
-        real = run_real(g, cfg, h2, rep, sd, bs, nested_sink=sink)
+        p = Prepared(g, cfg, h2, rep, sd, bs)
+        real = p.execute(defer_policy=True)     # the returned policy is read a few searches later
+        pending.append(p)
         ctx.evaluations += 1
         runs.append({"gid": i, "cid": c, "alg": cfg["alg"], "cfg": cfg, "rep": rep, "seed": sd, "build_seed": bs,
                      "h2": h2, "res": real})
-        for nr in sink:
+        for nr in p.nested:
             nested.append(dict(nr, outer=len(runs) - 1))
+        if len(pending) >= 6:
+            for q in pending:
+                q.complete()
+            pending = []
         if sd is not None and len(runs) % 7 == 0 and real["kind"] != "error":
             # DRIFT-level only (reproducibility is C13's clause): the same seed gives the same outcome
             # whatever the global generator holds
@@ -941,10 +1047,7 @@ def judge_cases(ctx, graphs, plan, *, tamper=None, quiet_counts=False, trace_eve
             again = run_real(g, cfg, h2, rep, sd, bs)
             ctx.evaluations += 1
             ctx.count("same_seed_reruns")
-            if outcome_key(again) != outcome_key(real):
-                ctx.drift("same-seed-different-outcome", {"graph": digest(graph_for_tlc(g)), "cfg": cfg, "seed": sd,
-                                                          "first": [real["kind"], real["path"], real["visited"]],
-                                                          "second": [again["kind"], again["path"], again["visited"]]})
+            reruns.append((again, real, g, cfg, sd))
         if real["kind"] == "error" and "from_mdp" in real.get("site", ""):
             # the conversion rejected the representation (judged below); the search itself is still
             # exercised on this case through an equivalent DeterministicDistribution representation
@@ -954,6 +1057,13 @@ def judge_cases(ctx, graphs, plan, *, tamper=None, quiet_counts=False, trace_eve
             ctx.count("reruns_with_DeterministicDistribution_after_conversion_error")
             runs.append({"gid": i, "cid": c, "alg": cfg["alg"], "cfg": cfg, "rep": rep2, "seed": sd, "build_seed": bs,
                          "h2": h2, "res": real2})
+    for q in pending:
+        q.complete()
+    for again, real, g, cfg, sd in reruns:
+        if outcome_key(again) != outcome_key(real):
+            ctx.drift("same-seed-different-outcome", {"graph": digest(graph_for_tlc(g)), "cfg": cfg, "seed": sd,
+                                                      "first": [real["kind"], real["path"], real["visited"]],
+                                                      "second": [again["kind"], again["path"], again["visited"]]})
     if tamper is not None:
         tamper(runs)
     # nested searches: their (relaxed) graphs are appended to the judged batch
@@ -981,9 +1091,17 @@ def judge_cases(ctx, graphs, plan, *, tamper=None, quiet_counts=False, trace_eve
         real = run_real(bg, cfg, [0] * bg["N"], brep, sd, bs)
         ctx.evaluations += 1
         bruns.append({"gid": where[key], "alg": cfg["alg"], "res": real, "cfg": cfg, "rep": brep, "seed": sd,
-                      "build_seed": bs, "graph": bg})
+                      "build_seed": bs, "graph": bg, "family": "big"})
     if bruns and not quiet_counts:
         ctx.count("runs_on_the_many_revisions_family(30-40 states)", len(bruns))
+    for x in extra:
+        key = digest(graph_for_tlc(x["graph"]))
+        if key not in where:
+            jgraphs.append(x["graph"])
+            where[key] = len(jgraphs)
+        bruns.append(dict(x, gid=where[key], alg=x["cfg"]["alg"]))
+    if extra and not quiet_counts:
+        ctx.count("runs_after_the_initial_state_was_changed_in_place", len(extra))
     all_verdicts = judge(ctx, jgraphs, runs + nruns + bruns)
     verdicts = all_verdicts[:len(runs)]
     if trace_every:
@@ -1072,15 +1190,21 @@ def judge_cases(ctx, graphs, plan, *, tamper=None, quiet_counts=False, trace_eve
     for br, (fails, shape) in zip(bruns, all_verdicts[len(runs) + len(nruns):]):
         real, cfg = br["res"], br["cfg"]
         planner = "AStarSearch" if cfg["alg"] == "astar" else "BreadthFirstSearch"
-        case = {"family": "big", "graph": gcore(br["graph"]), "cfg": cfg, "rep": br["rep"], "seed": br["seed"],
+        case = {"family": br["family"], "graph": gcore(br["graph"]), "cfg": cfg, "rep": br["rep"], "seed": br["seed"],
                 "build_seed": br["build_seed"], "real": {k: v for k, v in real.items() if k != "visits"}}
+        if br["family"] == "restart":
+            case["graph"]["start"] = br["orig_start"]
+            case["new_start"] = br["new_start"]
+            fam = "initial-state-changed-in-place-then-planned-again"
+        else:
+            fam = "many-revisions-30-40-states"
         for clause in fails:
             if clause == "returns":
                 site, cl = real.get("site", planner + ".plan_on"), "raises-" + real.get("exc", "error")
             else:
                 site, cl = planner, clause
-            ctx.violation(f"C05:{site}:{cl}:many-revisions-30-40-states",
-                          f"{planner} ({cfg['tie']}, rnd={cfg['rnd']}, h=zero) on a {br['graph']['N']}-state graph, clause '{clause}': "
+            ctx.violation(f"C05:{site}:{cl}:{fam}",
+                          f"{planner} ({cfg['tie']}, rnd={cfg['rnd']}, h={cfg['hk']}) on a {br['graph']['N']}-state graph [{fam}], clause '{clause}': "
                           f"kind={real['kind']} path={real['path']} value={real.get('raw_value', real['value'])} {real.get('note', '')}", case)
         if not fails:
             ctx.validated += 1
@@ -1177,7 +1301,9 @@ def replay(ctx, case):
     g["cfgs"] = [case["cfg"]]
     leg = (1, 1, case["rep"], case["seed"], case["build_seed"])
     sc = case.get("scenario")
-    if case.get("family") == "big":
+    if case.get("family") == "restart":
+        judge_cases(ctx, [g], [("restart", leg, case["new_start"])], trace_every=1)
+    elif case.get("family") == "big":
         bg = dict(case["graph"], cfgs=[], then=0)
         judge_cases(ctx, [], [], big=[(bg, case["cfg"], case["rep"], case["seed"], case["build_seed"])])
     elif sc and sc["kind"] == "reuse":
